@@ -140,6 +140,12 @@ def run(ctx) -> None:
         ctx.check(not hit, "C16.I7.byte-lines-are-not-instructions", f"line regex {ao[1][:50]!r}", (repr(hit[0]) if hit else ""),
                   "no instruction line regex accepts a line that consists of an address and raw bytes only "
                   f"({len(witnesses)} spacing variants), unless an earlier test on the same path catches that line")
+    # I8: decided on token templates: every presentation of an instruction (indentation, byte column, trailing blanks,
+    # # comment, <symbol> annotation) yields the same single record; the other line kinds yield none
+    from .. import shapes
+    Is8 = make_interp(ctx.p)
+    shapes.presentation_rule(ctx, Is8, "C16.I8.presentations-give-one-record")
+    shapes.other_lines_rule(ctx, Is8, "C16.I8.other-line-kinds-give-nothing")
     # I4 forwarding
     from ._parser import forwarding_rule
     forwarding_rule(ctx, "C16.I4.only-instructions-forwarded")
